@@ -8,7 +8,7 @@ root="/tmp/mfv-$name"
 rsync -a --delete /verif/engine/src/ "$root/engine/src/"
 ( cd "$root/repo" && git diff --stat | tail -1 )
 ( cd "$root/engine" && cargo +stable build --release --bin mfv 2>&1 | grep -E "^error" -A10 | head -30 )
-mkdir -p "$root/out"
+mkdir -p "$root/out"; cp -f /verif/KNOWN_FINDINGS.jsonl "$root/out/"   # the known-findings file is looked up under VERIF_ROOT
 for id in "$@"; do
   VERIF_ROOT="$root/out" VERIF_SEED="${VERIF_SEED:-0}" "$root/target/release/mfv" "$id" "${TIER:-quick}" 2>&1 | grep -E "^(C[0-9]+ |VIOLATION|  violated|INCONCLUSIVE|ENGINE)" | head -14
 done
